@@ -199,7 +199,7 @@ var clauseKeywords = map[string]bool{
 	"func": true, "extern": true, "sort": true, "const": true, "fun": true, "pred": true, "lemma": true,
 	"axiom": true, "type": true, "method": true, "returns": true, "params": true, "variant": true,
 	"induction": true, "assert": true, "assume": true, "unfold": true, "use": true, "useif": true, "set": true,
-	"body": true, "havoc": true, "captured": true, "defines": true,
+	"body": true, "havoc": true, "captured": true, "defines": true, "standalone": true,
 }
 
 func (p *parser) parseType() *TypeExpr {
@@ -743,6 +743,10 @@ func (p *parser) parseFuncSpecBody(fs *FuncSpec) {
 		case "nosafety":
 			p.next()
 			fs.NoSafety = true
+		case "standalone":
+			// a variant that does not inherit the clauses of the plain contract
+			p.next()
+			fs.NoInherit = true
 		case "refines":
 			p.next()
 			fs.Refines = p.qualIdent()
